@@ -13,6 +13,15 @@ def P(src, variant, name, args=None, tiers=('quick', 'thorough'), tier_args=None
 
 
 CHECKS = {
+    'C13': {
+        'engine': 'seqx',
+        'rule': 'hash array operation histories vs ordered-map model + structural invariants',
+        'parts': [
+            P('props/C13.cpp', 'asan+access', 'hash-asan', tier_args={'quick': ['--depth', '3'], 'thorough': ['--depth', '4']}),
+            P('props/C13.cpp', 'fast+access', 'hash-fast', tier_args={'quick': ['--depth', '4'], 'thorough': ['--depth', '5']}),
+        ],
+        'floor': {'quick': 1000, 'thorough': 1000},
+    },
     'C14': {
         'engine': 'seqx',
         'rule': 'container operation histories vs std models; byte-copy primitives vs memcpy',
